@@ -24,6 +24,7 @@ from sim.util import canon, vkey
 VERIF = os.path.dirname(os.path.dirname(os.path.abspath(__file__)))
 PY = os.environ.get("VERIF_PYTHON", "/venv/bin/python")
 WORKERS = 16
+MAX_REPORT = 12
 
 
 def worker_env(hashseed, malloc_perturb=None):
@@ -76,22 +77,37 @@ def wait_all(procs, timeout):
 def replay_path(prop, v, scn):
     h = hashlib.sha256(canon(scn).encode()).hexdigest()[:10]
     comp = "".join(ch if ch.isalnum() else "_" for ch in v["component"])
-    return os.path.join(VERIF, "replays", f"{prop}-{v['clause']}-{comp}-{h}.json")
+    return os.path.join(replay_dir(), f"{prop}-{v['clause']}-{comp}-{h}.json")
 
 
-def confirm(replay_file, workdir, tag):
-    """Re-execute a replay file in a fresh interpreter; True iff the same violation shows."""
+def replay_dir():
+    return os.environ.get("VERIF_REPLAY_DIR") or os.path.join(VERIF, "replays")
+
+
+def evidence_dir():
+    return os.environ.get("VERIF_EVIDENCE_DIR") or os.path.join(VERIF, "evidence")
+
+
+def confirm_start(replay_file, workdir, tag):
     doc = json.load(open(replay_file))
     scn = doc["scenario"]
-    job = {"prop": scn["property"], "tier": "quick", "verif_seed": 0, "scenarios": [scn], "shrink_execs": 0, "shrink_seconds": 0, "selfcheck": 0, "watchdog": 300, "ignore_known": True}
-    pr = launch(job, workdir, f"confirm-{tag}", doc.get("hashseed") or 0, doc.get("malloc_perturb"))
+    job = {"prop": scn["property"], "tier": "quick", "verif_seed": 0, "scenarios": [scn], "shrink_execs": 0, "shrink_seconds": 0, "selfcheck": 0, "watchdog": 300}
+    return launch(job, workdir, f"confirm-{tag}", doc.get("hashseed") or 0, doc.get("malloc_perturb")), doc
+
+
+def confirm_finish(pr, doc):
     errs = wait_all([pr], 400)
     if errs:
         return None, errs
     want = tuple(doc["key"])
     got = [tuple(vkey(x["violation"])) for x in pr["out"]["violations"]]
-    hits = pr["out"].get("known_hits", {})
-    return (want in got) or bool(hits and doc.get("known")), []
+    return want in got, []
+
+
+def confirm(replay_file, workdir, tag):
+    """Re-execute a replay file in a fresh interpreter; True iff the same violation shows."""
+    pr, doc = confirm_start(replay_file, workdir, tag)
+    return confirm_finish(pr, doc)
 
 
 def run_check(prop, tier, seed, out=sys.stdout):
@@ -200,8 +216,12 @@ def report(prop, tier, seed, mod, procs, cross, errors, known, workdir, t0, ncas
             if key not in best or size < best[key][0]:
                 best[key] = (size, v, o)
     reported = []
-    os.makedirs(os.path.join(VERIF, "replays"), exist_ok=True)
-    for key in sorted(best):
+    os.makedirs(replay_dir(), exist_ok=True)
+    # smallest scenarios first; at most MAX_REPORT distinct violations are confirmed and reported
+    order = sorted(best, key=lambda k: (best[k][0], k))
+    dropped = max(0, len(order) - MAX_REPORT)
+    pending = []
+    for key in order[:MAX_REPORT]:
         _, v, o = best[key]
         path = replay_path(prop, v["violation"], v["scenario"])
         doc = {
@@ -217,7 +237,10 @@ def report(prop, tier, seed, mod, procs, cross, errors, known, workdir, t0, ncas
         }
         with open(path, "w") as f:
             json.dump(doc, f, indent=1)
-        ok, errs = confirm(path, workdir, f"{len(reported)}")
+        pr, d = confirm_start(path, workdir, f"{len(pending)}")
+        pending.append((key, path, v, pr, d))
+    for key, path, v, pr, d in pending:
+        ok, errs = confirm_finish(pr, d)
         if errs:
             harness.extend(errs)
             continue
@@ -225,6 +248,7 @@ def report(prop, tier, seed, mod, procs, cross, errors, known, workdir, t0, ncas
             harness.append(f"violation {key} did not reproduce from {path} in a fresh interpreter")
             continue
         reported.append((key, path, v["violation"]))
+    reported.sort()
     wall = time.monotonic() - t0
     nontrivial = {(r["es"], r["sd"]) for r in records if r["nt"]}
     ev = {
@@ -267,14 +291,16 @@ def report(prop, tier, seed, mod, procs, cross, errors, known, workdir, t0, ncas
     }
     if not ev["coverage"]["samples"]:
         ev["coverage"]["samples"] = [{"note": "no scenario executed"}]
-    os.makedirs(os.path.join(VERIF, "evidence"), exist_ok=True)
-    with open(os.path.join(VERIF, "evidence", f"{prop}.json"), "w") as f:
+    os.makedirs(evidence_dir(), exist_ok=True)
+    with open(os.path.join(evidence_dir(), f"{prop}.json"), "w") as f:
         json.dump(ev, f, indent=1, default=str)
     for k in sorted(known_hits):
         print(f"KNOWN-FINDING: {known.describe(k)} (matched {known_hits[k]}x)", file=out)
     for key, path, v in reported:
         print(f"VIOLATION property={prop} replay={path}", file=out)
         print(f"  clause={v['clause']} component={v['component']} signature={v['signature']} :: {v['detail']}", file=out)
+    if dropped:
+        print(f"({dropped} further distinct violation signatures were found and not minimised/reported)", file=out)
     print(
         f"[{prop} {tier} seed={seed}] scenarios={executed} (enumerated {ncases}) distinct_nontrivial={len(nontrivial)} "
         f"violations={len(reported)} known={sum(known_hits.values())} harness_errors={len(harness)} wall={wall:.1f}s",
